@@ -249,7 +249,36 @@ def r86(F):
                    "in escapequoted, on the escaped edge, exactly n -> LF, r -> CR, t -> TAB (the escapes types.md documents) and every "
                    "other byte stands for itself; an unescaped quote ends the literal", floor=4, exhaustive=True)
     fn = F.fn(TK + "escapequoted")
-    sw = [(b, fn.term(b)) for b in range(len(fn.blocks)) if fn.term(b)["k"] == "switch" and fn.term(b).get("ty") == "char" and not fn.is_cleanup(b)]
+    sw = [(b, fn.term(b)) for b in range(len(fn.blocks)) if fn.term(b)["k"] == "switch" and fn.term(b).get("ty") in ("char", "u8") and not fn.is_cleanup(b)]
+    if len(sw) > 1:
+        # `match (escape, c)`: one switch on the character per value of the flag - the one under `escape == true` is the table
+        esc = set(fn.locals_named("escape"))
+        need(esc, "escapequoted: several switches on the character and no `escape` flag to tell them apart")
+        esc_copies = set()
+        for e in esc:
+            esc_copies |= set(util.copies_of(fn, e, allow_not=False))
+        true_edges = []
+        for b in range(len(fn.blocks)):
+            t = fn.term(b)
+            if t["k"] != "switch" or t.get("ty") != "bool" or fn.is_cleanup(b):
+                continue
+            pl_ = op_place(t["on"])
+            if pl_ is None:
+                continue
+            src = None
+            if not pl_["p"] and pl_["l"] in esc_copies:
+                src = pl_["l"]
+            elif len(pl_["p"]) == 1 and isinstance(pl_["p"][0], dict) and "f" in pl_["p"][0]:
+                # a component of the matched tuple
+                for bb, j, pl2, rv2, m2 in fn.assigns():
+                    if pl2["l"] == pl_["l"] and not pl2["p"] and rv2["k"] == "agg" and rv2.get("adt") == "(tuple)":
+                        k_ = int(pl_["p"][0]["f"])
+                        if k_ < len(rv2["ops"]) and op_local(rv2["ops"][k_]) in esc_copies:
+                            src = pl_["l"]
+            if src is not None:
+                zero = [x["t"] for x in t["targets"] if str(x["val"]) == "0"]
+                true_edges.append(t["otherwise"] if zero else [x["t"] for x in t["targets"] if str(x["val"]) == "1"][0])
+        sw = [(b, t) for b, t in sw if any(cfg.dominates(fn, te_, b) for te_ in true_edges)]
     need(len(sw) == 1, "switch on the escaped character not found")
     sb, st = sw[0]
     table = {}
